@@ -36,6 +36,8 @@ class ModuleInfo:
         except SyntaxError as e:  # the tree must at least parse
             raise AnalysisError(f"syntax error in {rel}: {e}") from e
         self._parents: ParentMap | None = None
+        for _n in ast.walk(self.tree):
+            _n._sa_mod = self  # lets pattern helpers find the module (and so the enclosing function) of any node
         self.functions: dict[str, FuncInfo] = {}
         self.classes: dict[str, ast.ClassDef] = {}
         self.imports: dict[str, str] = {}  # local name -> "module:name" / "module"
